@@ -213,7 +213,9 @@ func (m *MdatBox) ReadData(start, size int64, rs io.ReadSeeker) ([]byte, error) 
 	if len(m.DataParts) > 0 {
 		return nil, fmt.Errorf("extraction of range from dataParts not yet implemented")
 	}
-	return m.Data[offsetInMdatData : offsetInMdatData+uint64(size)], nil
+	// The capacity is clipped: appending to the returned slice must not overwrite the data after the range
+	end := offsetInMdatData + uint64(size)
+	return m.Data[offsetInMdatData:end:end], nil
 
 }
 
